@@ -693,7 +693,7 @@ fn run_case1(case: &Value, out: &mut dyn Write, forced: Option<(i32, i32, f64)>)
                         }
                         Err(_) => vec!["PANIC".to_string()],
                     };
-                    let tagged = ep.components.data.iter().any(|c| c.comment().contains("CTEEPBD_"));
+                    let tagged = ep.components.data.iter().any(|c| c.comment().contains("CTEEPBD_") && !c.comment().contains(flat::LOW_SCOP_TAG));
                     let mut tk: Vec<&String> = f.tkeys.iter().filter(|k| !k.ends_with(".f_match")).collect();
                     tk.sort();
                     let mut fk: Vec<&String> = f.tkeys.iter().filter(|k| k.ends_with(".f_match")).collect();
